@@ -1,7 +1,8 @@
 (* C16 — Every address has one zone and one ledger, respected by all state.
    Property theorems only: each is closed by [exact <lemma>] and followed by
    [Print Assumptions].  Model: Model/C16.v  Lemmas: Proofs/C16.v, Proofs/C16_Sender.v  Generated data: Generated/C16Sites.v
-   [bytes_to_address] is the model of the CURRENT common.BytesToAddress (Model.C16.fix_applied = false). *)
+   [bytes_to_address] is the model of the CURRENT common.BytesToAddress (Model.C16.fix_applied = true: F10 is
+   repaired in the tree; the *_refuted theorems speak about [bytes_to_address_gen false] explicitly). *)
 From Coq Require Import List NArith Bool.
 From GQ Require Import Lib.Key Model.C16 Generated.C16Sites Proofs.C16 Proofs.C16_Sender.
 Import ListNotations.
